@@ -204,7 +204,20 @@ func vMetaSpec(tag string, aspect int) *spec.Swagger {
 	if aspect == 2 {
 		op.Tags = vStrList(tag + ".tags")
 	}
+	// media types given for the operation (nil = the ones of the spec apply)
+	if aspect == 10 {
+		op.Consumes = vStrList(tag + ".op.consumes")
+	}
+	if aspect == 11 {
+		op.Produces = vStrList(tag + ".op.produces")
+	}
 	sw := vSpecWithOp("/a", op)
+	if aspect == 10 {
+		sw.Consumes = vStrList(tag + ".consumes")
+	}
+	if aspect == 11 {
+		sw.Produces = vStrList(tag + ".produces")
+	}
 	if aspect == 3 && vBool2(tag+".hasB") {
 		pi := spec.PathItem{}
 		pi.Get = &spec.Operation{}
@@ -249,7 +262,7 @@ func vMetaSpec(tag string, aspect int) *spec.Swagger {
 }
 
 func VerifC14MirrorMeta() {
-	aspect := vChoice("aspect", 10)
+	aspect := vChoice("aspect", 12)
 	if vParam("mapsites") > 0 {
 		vMapOrderSite(vChoice("mapsite", vParam("mapsites")+1) - 1)
 	}
